@@ -32,8 +32,10 @@ import (
 func GetCondition(rj *execution.Job) (execution.JobCondition, error) {
 	state := execution.JobCondition{}
 
-	// We cannot create tasks due to a user error.
-	if message, ok := GetAdmissionErrorMessage(rj); ok {
+	// We cannot create tasks due to a user error. If some tasks were already created
+	// (for other parallel indexes), they are killed first, and the Job is only
+	// finished once none of them is still alive.
+	if message, ok := GetAdmissionErrorMessage(rj); ok && !hasUnfinishedTasks(rj) {
 		newStatus := &execution.JobConditionFinished{
 			FinishTimestamp: *ktime.Now(),
 			Result:          execution.JobResultAdmissionError,
@@ -198,4 +200,14 @@ func GetCondition(rj *execution.Job) (execution.JobCondition, error) {
 	}
 
 	return state, nil
+}
+
+// hasUnfinishedTasks returns true if any task in the Job's status is not finished.
+func hasUnfinishedTasks(rj *execution.Job) bool {
+	for _, task := range rj.Status.Tasks {
+		if task.FinishTimestamp.IsZero() {
+			return true
+		}
+	}
+	return false
 }
